@@ -21,12 +21,23 @@ def handleParse (j : Json) : Json :=
       | .rejected => "rejected" | .dropped => "dropped" | .kept => "kept"))]
   | "tuple" => Json.mkObj [("excess", Json.arr ((tupleExcess (normAddition ndl a) ndl (nat! (fld j "nargs")) (nat! (fld j "nvals"))).map
       (fun (n : Nat) => Json.num n)).toArray)]
-  | "dataclass" => encodeOutcome (dataclassUnwrap ⟨nec, ndl⟩ (decodeV (fld j "value")))
+  | "dataclass" =>
+    -- instances of the target data class are `obj 10`, of a subclass `obj 12` (an unrelated data class is `obj 11`)
+    let isExact : V → Bool := fun v => match v with | .obj k => k == 10 | _ => false
+    let isInst : V → Bool := fun v => match v with | .obj k => k == 10 || k == 12 | _ => false
+    (match dataclassStep isExact isInst true ⟨nec, ndl⟩ (decodeV (fld j "value")) with
+     | .ok (.instance v) => Json.mkObj [("instance", encodeV v)]
+     | .ok (.init v) => Json.mkObj [("init", encodeV v)]
+     | .perr e => Json.mkObj [("perr", Json.str (perrName e))]
+     | .escape e => Json.mkObj [("escape", Json.str (escName e))]
+     | .diverge => Json.mkObj [("diverge", Json.bool true)]
+     | .unmodelled w => Json.mkObj [("unmodelled", Json.str w)])
   | _ => Json.mkObj [("driver-error", Json.str "unknown parse kind")]
 
 /-- ops:
   `conv`  one converter call (target class, flags, value) → outcome            (reused by C01 / C04)
   `c12`   the same call under the four flag combinations → {"ff","ft","tf","tt"}  (first letter nec, second ndl)
+  `union` a Union of member targets under the four flag combinations (rule.py:381-431)
   `parse` the parse-level places that read the flags (options / schema / tuple / dataclass) -/
 def handle (j : Json) : Json :=
   match str! (fld j "op") with
@@ -35,6 +46,13 @@ def handle (j : Json) : Json :=
     Json.mkObj [("ff", encodeOutcome (runCall j false false)), ("ft", encodeOutcome (runCall j false true)),
                 ("tf", encodeOutcome (runCall j true false)), ("tt", encodeOutcome (runCall j true true))]
   | "parse" => handleParse j
+  | "union" =>
+    let P := decodePrims (fld j "prims")
+    let E := decodeEnv (fld j "env")
+    let ts := (arr! (fld j "members")).map decodeTarget
+    let v := decodeV (fld j "value")
+    let run (nec ndl : Bool) := encodeOutcome (Utv.C12M.unionParse (fun f t x => transform P E f t x) ⟨nec, ndl⟩ ts v)
+    Json.mkObj [("ff", run false false), ("ft", run false true), ("tf", run true false), ("tt", run true true)]
   | _ => Json.mkObj [("driver-error", Json.str "unknown op")]
 
 def main : IO Unit := serveFlush handle
